@@ -79,7 +79,7 @@ func c19(c *Ctx) {
 			}
 			return false
 		}, "every log of the accepted batch overwrites its slot (a stale entry of the same slot never survives a rewrite of that index)")
-		for _, ret := range engine.ReturnsOf(fn) {
+		for _, ret := range engine.RawReturnsOf(fn) {
 			d := c.P.D(engine.ReturnValues(ret)[0])
 			c.RequireAt(r, "R2", "StoreLogs:return "+pick(d == "nil", "nil", "error"), ret, "nil iff the backend returned nil", func(v engine.View) bool {
 				if d == "nil" {
@@ -99,7 +99,7 @@ func c19(c *Ctx) {
 				}
 			})
 		}
-		rets := engine.ReturnsOf(fn)
+		rets := engine.RawReturnsOf(fn)
 		ok = ok && len(rets) == 1 && strings.HasPrefix(c.P.D(engine.ReturnValues(rets[0])[0]), "recv.StoreLogs(")
 		c.Check("R2", "StoreLog:delegates", c.P.Pos(fn.Pos()), "StoreLog(l) = StoreLogs([]*Log{l})", ok, pick(ok, "delegates", "does something else"), 1)
 	}
@@ -113,7 +113,7 @@ func c19(c *Ctx) {
 			}),
 			engine.Event("backend", c.P.IsCallTo(engine.Is("iface:LogStore.DeleteRange"))),
 		}})
-		for i, ret := range engine.ReturnsOf(fn) {
+		for i, ret := range engine.RawReturnsOf(fn) {
 			d := c.P.D(engine.ReturnValues(ret)[0])
 			c.RequireAt(r, "R3", fmt.Sprintf("DeleteRange:return#%d", i+1), ret, "the whole cache was replaced by a fresh slice of the same length before returning, and the backend's answer is returned unchanged", func(v engine.View) bool {
 				return v.Seen("reset") && v.Seen("backend") && d == "recv.store.DeleteRange(p1, p2)"
@@ -151,7 +151,7 @@ func c19(c *Ctx) {
 		if n == 0 {
 			c.Bad("R4", "GetLog:hit-path", c.P.Pos(fn.Pos()), "a cache-hit path copying the cached entry", "none")
 		}
-		for i, ret := range engine.ReturnsOf(fn) {
+		for i, ret := range engine.RawReturnsOf(fn) {
 			d := c.P.D(engine.ReturnValues(ret)[0])
 			c.RequireAt(r, "R4", fmt.Sprintf("GetLog:return#%d", i+1), ret, "either a verified hit (copied, nil) or exactly the backend's GetLog(idx, log) result", func(v engine.View) bool {
 				if d == "nil" {
@@ -165,7 +165,7 @@ func c19(c *Ctx) {
 	// R5
 	for _, m := range []string{"FirstIndex", "LastIndex"} {
 		if fn := c.Fn("R5", "(*LogCache)."+m); fn != nil {
-			for _, ret := range engine.ReturnsOf(fn) {
+			for _, ret := range engine.RawReturnsOf(fn) {
 				vals := engine.ReturnValues(ret)
 				ok := len(vals) == 2 && c.P.D(vals[0]) == "recv.store."+m+"()#0" && c.P.D(vals[1]) == "recv.store."+m+"()#1"
 				c.Check("R5", m+":pass-through", c.P.InstrPos(ret), m+"() returns the backend's result unmodified", ok, "returns "+c.P.D(vals[0])+", "+c.P.D(vals[len(vals)-1]), 1)
@@ -173,7 +173,7 @@ func c19(c *Ctx) {
 		}
 	}
 	if fn := c.Fn("R5", "(*LogCache).IsMonotonic"); fn != nil {
-		for _, ret := range engine.ReturnsOf(fn) {
+		for _, ret := range engine.RawReturnsOf(fn) {
 			d := c.P.D(engine.ReturnValues(ret)[0])
 			ok := d == "false" || d == "recv.store.(MonotonicLogStore)#0.IsMonotonic()"
 			c.Check("R5", "IsMonotonic:pass-through", c.P.InstrPos(ret), "the backend's IsMonotonic() or false when it has none", ok, "returns "+d, 1)
